@@ -23,7 +23,7 @@ except Exception:  # pragma: no cover
     is_tracing = lambda: False  # noqa: E731
 
 SASL_LISTS = [b"PLAIN", b"LOGIN PLAIN", b"OAUTHBEARER X-UNKNOWN", b"SCRAM-SHA-1 GSSAPI", b"", None,
-              b"PLAIN LOGIN OAUTHBEARER", b"DIGEST-MD5 PLAIN"]
+              b"PLAIN LOGIN OAUTHBEARER", b"DIGEST-MD5 PLAIN", b"XOAUTHBEARER PLAIN-CLIENTTOKEN X-LOGIN"]
 BEHAV = ["OK", "NO", "BYE", "SILENT", "MALFORMED"]
 AUTHMECHS = [None, "PLAIN", "LOGIN", "OAUTHBEARER", "X-UNKNOWN", "plain", "DIGEST-MD5"]
 SCRIPT_VERBS = [b"HAVESPACE", b"LISTSCRIPTS", b"GETSCRIPT", b"PUTSCRIPT", b"CHECKSCRIPT", b"DELETESCRIPT", b"RENAMESCRIPT",
@@ -36,7 +36,7 @@ C0HI = int(os.environ.get("C10_HI", str(NCALLS)))
 NSASL = int(os.environ.get("C10_NSASL", "6"))
 NMECH = int(os.environ.get("C10_NMECH", "7"))
 NCALL = int(os.environ.get("C10_NCALL", "3"))
-SASL_ORDER = [int(x) for x in os.environ.get("C10_SASL", "0,1,2,3,4,5,6,7").split(",")]
+SASL_ORDER = [int(x) for x in os.environ.get("C10_SASL", "0,1,2,3,4,5,6,7,8").split(",")]
 MECH_ORDER = [int(x) for x in os.environ.get("C10_MECHS", "0,1,2,3,4,5,6").split(",")]
 CRED_FIXED = os.environ.get("C10_CRED")
 SHAPE = os.environ.get("C10_SHAPE", "connect*,deletescript").split(",")
@@ -49,7 +49,7 @@ def reconfigure():
     FREEZE = tuple(x for x in os.environ.get("C10_FREEZE", "").split(",") if x)
     NMECH = int(os.environ.get("C10_NMECH", "7"))
     NCALL = int(os.environ.get("C10_NCALL", "3"))
-    SASL_ORDER = [int(x) for x in os.environ.get("C10_SASL", "0,1,2,3,4,5,6,7").split(",")]
+    SASL_ORDER = [int(x) for x in os.environ.get("C10_SASL", "0,1,2,3,4,5,6,7,8").split(",")]
     MECH_ORDER = [int(x) for x in os.environ.get("C10_MECHS", "0,1,2,3,4,5,6").split(",")]
     CRED_FIXED = os.environ.get("C10_CRED")
     C0LO = int(os.environ.get("C10_LO", "0"))
